@@ -308,10 +308,10 @@ def apply_contract(ex, c, fi, args, kwargs, st, k, ctl, node):
             # the same pure call was made before in this unit: its result (and the facts about it) are known
             return k(st, cache[ckey])
         if ckey not in cache:
-            cache[ckey] = cx.fresh("r_" + c.target.split(".")[-1].strip("_"), c.ret)
+            cache[ckey] = cx.fresh("r_" + c.target.split(".")[-1].split(":")[-1].strip("_"), c.ret)
         result = cache[ckey]
     else:
-        result = cx.fresh("r_" + c.target.split(".")[-1].strip("_"), c.ret)
+        result = cx.fresh("r_" + c.target.split(".")[-1].split(":")[-1].strip("_"), c.ret)
     # 3. exceptional exits
     if not st.spec:
         for R in c.raises:
